@@ -29,7 +29,7 @@ RULE = ("per-run seed -> storage configuration (simulated FileStorage with mmap 
 ASSUMPTIONS = ["one searcher per simulated thread, as the documentation requires",
                "a reader opened over [a,b] may legitimately see any generation between the last commit that returned before a and the last TOC rename issued before b",
                "probes read every stored field, posting, length, vector and column through the held reader (this is what touches lazily opened files)"]
-TIERS = {"quick": {"runs": 2400, "time_budget": 100, "audit_every": 60},
+TIERS = {"quick": {"runs": 2400, "time_budget": 150, "audit_every": 60},
          "thorough": {"runs": 40000, "time_budget": 1500, "audit_every": 100}}
 
 
